@@ -206,8 +206,7 @@ fn kind(p: &cfavml_utils::MaybeBorrowedPool) -> &'static str {
     }
 }
 
-fn mode_probe() {
-    use rayon::prelude::*;
+fn print_sys() {
     let cores: Vec<String> = core_affinity::get_core_ids()
         .unwrap_or_default()
         .iter()
@@ -221,6 +220,11 @@ fn mode_probe() {
         std::thread::available_parallelism().map(|n| n.get()).unwrap_or(1),
         num_cpus::get()
     );
+}
+
+fn mode_probe() {
+    use rayon::prelude::*;
+    print_sys();
     let pool = cfavml_utils::get_or_init_pool();
     println!("pool1 threads={} kind={}", pool.current_num_threads(), kind(&pool));
     // a job on EVERY worker (also guarantees that every start handler has completed)
@@ -241,6 +245,7 @@ fn mode_probe() {
 }
 
 fn mode_race(n: usize) {
+    print_sys();
     let barrier = std::sync::Arc::new(std::sync::Barrier::new(n));
     let handles: Vec<_> = (0..n)
         .map(|_| {
